@@ -19,8 +19,9 @@ notified entry's owner has an outstanding wake-up; an unlocked mutex with regist
 a notified entry ("baton").
 
 Not covered by this theorem: interleavings of atomic operations of several threads (polls are
-atomic here) and threads parked in `lock_blocking` (a parked thread is a task that is re-polled
-when woken, under the assumption that `parking` unparks the right thread).
+atomic here).  Threads parked in `lock_blocking` enter through `C05_blocking_is_poll` below (the
+resume path of a parked thread equals the poll of a notified future; that `parking` unparks the
+right thread is assumed).
 -/
 
 namespace ALock.Mutex
@@ -98,6 +99,69 @@ example :
     s.c.woken = [2] ∧ s.c.st = 0 := by decide
 
 end ALock.Mutex
+
+/-! ### `lock_blocking`: a parked thread is a re-polled task
+
+`lock_blocking` / `lock_arc_blocking` drive the same `AcquireSlow::poll_with_strategy` with the
+`Blocking` strategy.  A thread parked in it resumes after `strategy.poll(listener)` has returned —
+its listener has fired and been consumed — in whichever of the two loops it parked.
+`lockResumeBlocking` is that code path, written from the source of the two loops;
+`C05_blocking_is_poll` proves that it changes the mutex exactly as the poll of the corresponding
+notified future does, so every theorem about histories of polls (C01, C05, C10, C13, C17 for the
+Mutex) also covers threads parked in the blocking forms (parking on a fresh listener registers the
+unparker, which is what `setTask` says). -/
+
+namespace ALock
+
+/-- a thread parked in `AcquireSlow` (blocking strategy) resumes; `fire` is the 0.5 ms test -/
+def lockResumeBlocking (c : Core) (l : LockSt) (f t : Nat) (fire : Bool) : PollRes :=
+  -- `strategy.poll(listener)` returned: the entry is gone from the list
+  let c0 := c.consume f
+  if !l.starved then
+    -- hot loop: CAS(0,1)
+    if c.st = 0 then ⟨{ c0 with st := 1 }, { l with done := true }, true, 5⟩
+    else if c.st = 1 then
+      if fire then
+        -- break; fetch_add(2); fair loop: listen; CAS(2,3) fails (odd); park
+        ⟨((c0.starve).listen f).setTask f t, { l with starved := true }, false, 6⟩
+      else
+        -- continue: listen; CAS(0,1) fails with 1; park
+        ⟨(c0.listen f).setTask f t, l, false, 7⟩
+    else
+      -- somebody is starved: notify(1); break; fetch_add(2); fair loop: listen; CAS(2,3) fails
+      let c1 := (((c0.notify 1).starve).listen f)
+      if c.st % 2 = 1 then ⟨c1.setTask f t, { l with starved := true }, false, 8⟩
+      else
+        -- lock is available: be fair, notify(1); wait on the fresh listener
+        let c2 := c1.notify 1
+        if Ev.isNotified c2.q f then
+          -- it was our own: `wait()` returns at once; fetch_or(1) acquires; take_mutex: fetch_sub(2)
+          ⟨{ c2.consume f with st := c.st + 1 }, { l with starved := true, done := true }, true, 9⟩
+        else ⟨c2.setTask f t, { l with starved := true }, false, 10⟩
+  else
+    -- fair loop: fetch_or(1)
+    if c.st % 2 = 0 then ⟨{ c0 with st := c.st + 1 - 2 }, { l with done := true }, true, 12⟩
+    else ⟨(c0.listen f).setTask f t, l, false, 13⟩
+
+/-- **C05 (blocking forms are covered).** For a slow-path waiter whose listener is notified — the
+only situation in which a parked thread resumes — the blocking code path and the poll of the
+corresponding future are the same transformation of the mutex. -/
+theorem C05_blocking_is_poll (c : Core) (l : LockSt) (f t : Nat) (fire : Bool)
+    (hs : l.slow = true) (hn : Ev.isNotified c.q f = true) :
+    lockResumeBlocking c l f t fire = lockPoll c l f t fire := by
+  unfold lockResumeBlocking lockPoll
+  simp only [hs, hn, Bool.not_true, Bool.false_eq_true, if_false]
+
+/-- non-vacuity: guard 0 held, waiter 1 parked in the hot loop; the guard is dropped: 1 is notified
+and its blocking resume acquires the mutex -/
+example :
+    let s := Mutex.run {} [.tryLock 0 false, .start 1 false, .poll 1 4 false, .dropGuard 0]
+    let l : LockSt := { slow := true }
+    Ev.isNotified s.c.q 1 = true ∧ (lockResumeBlocking s.c l 1 4 false).ready = true ∧
+    (lockResumeBlocking s.c l 1 4 false).c.st = 1 ∧ (lockResumeBlocking s.c l 1 4 false).c.q = [] := by
+  decide
+
+end ALock
 
 /-! ## Where the notifications are sent (generated site table) -/
 
